@@ -235,35 +235,20 @@ pub fn c08_string_len_bounds() {
 #[kani::stub(syn::Error::new, reject)]
 #[kani::stub(alloc::fmt::format, no_format)]
 pub fn c08_string_sanitizers() {
+    // two sanitizers (a concrete list length keeps the Vec's length concrete for the symbolic executor)
     let (k0, k1): (u8, u8) = (kani::any(), kani::any()); kani::assume(k0 < 3 && k1 < 3);
-    let n: usize = kani::any(); kani::assume(n >= 1 && n <= 2);
-    let dup = n == 2 && k0 == k1;
-    let both_cases = n == 2 && ((k0 == 1 && k1 == 2) || (k0 == 2 && k1 == 1));
+    let dup = k0 == k1;
+    let both_cases = (k0 == 1 && k1 == 2) || (k0 == 2 && k1 == 1);
     unsafe { EXPECT_REJECT = dup || both_cases; }
     kani::cover!(both_cases); kani::cover!(dup);
     let mut items: Vec<crate::string::models::SpannedStringSanitizer> = Vec::with_capacity(2);
     items.push(SpannedItem::new(string_sanitizer(k0), Span::call_site()));
-    if n == 2 { items.push(SpannedItem::new(string_sanitizer(k1), Span::call_site())); }
+    items.push(SpannedItem::new(string_sanitizer(k1), Span::call_site()));
     let r = crate::string::validate::verif_validate_sanitizers(items);
     kani::cover!(true, "accepted");
     assert!(!unsafe { EXPECT_REJECT }, "lowercase together with uppercase (or a duplicate sanitizer) was accepted");
     assert!(r.is_ok());
     core::mem::forget(r);
-}
-
-// ------------------------------------------------------------------ visible inner field
-#[kani::proof]
-#[kani::stub(syn::Error::new, reject)]
-pub fn c08_inner_field_visibility() {
-    let public: bool = kani::any();
-    let vis = if public { syn::Visibility::Public(Default::default()) } else { syn::Visibility::Inherited };
-    unsafe { EXPECT_REJECT = public; }
-    kani::cover!(public);
-    let r = crate::common::parse::meta::verif_validate_inner_field_visibility(&vis);
-    kani::cover!(true, "accepted");
-    assert!(!unsafe { EXPECT_REJECT }, "a `pub` inner field was accepted");
-    assert!(r.is_ok());
-    core::mem::forget(r); core::mem::forget(vis);
 }
 
 // ------------------------------------------------------------------ sabotage twin
